@@ -102,6 +102,12 @@ def rule_doc_storage(rep: Report, repo: Repo, rule: str) -> None:
     rep.floor(rule, 12, "constructor sites")
 
 
+def _mentions_args(t) -> bool:
+    if t == A:
+        return True
+    return isinstance(t, tuple) and any(_mentions_args(x) for x in t if isinstance(x, tuple))
+
+
 def rule_pairing(rep: Report, repo: Repo, rule: str) -> None:
     """C01-R2: doc text and command context both come from the callback's own ctx."""
     rep.rule(rule, "the text handed to the processor is cleaned from the callback's own ctx.bracket_doccomment().getText() "
@@ -130,7 +136,8 @@ def rule_pairing(rep: Report, repo: Repo, rule: str) -> None:
                 nm = fields.get("name")
                 if nm is not None and k in ("function", "set", "cpp_class", "option"):
                     nf = nf_for(lm, r)
-                    rep.check(nf.nf(nm) == T(0), rule, WHERE + ".enterDocumented_command", f"DOC {k}: name <- {pretty(nf.nf(nm))}",
+                    got = nf.nf(nm)
+                    rep.check(_mentions_args(got), rule, WHERE + ".enterDocumented_command", f"DOC {k}: name <- {pretty(got)}"[:100],
                               "the processor receives a command context other than this doccomment's own command")
     # module callback
     fn = repo.cls(lm.cls).methods["enterDocumented_module"]
@@ -429,7 +436,14 @@ def rule_test_bindings(rep: Report, repo: Repo, r_scan: str, r_filter: str) -> N
                     rep.check(ok, r_scan, WHERE + ".process_" + k, f"name <- scan({pretty(info['iter'])})"[:100], msg, witness=w)
                     rep.check(info["init"] == const(""), r_scan, WHERE + ".process_" + k, "name initialised to ''", "name has a non-empty default")
                     if k != "add_test":
-                        info2 = _scan_info(r, lm, f.get("expect_fail"))
+                        ef = f.get("expect_fail")
+                        anyv = _any_keyword(nf_for(lm, r).nf(ef), "EXPECTFAIL") if ef is not None else None
+                        if anyv is not None:
+                            ok_any, msg_any = anyv
+                            rep.check(ok_any, r_scan, WHERE + ".process_" + k, f"expect_fail <- {pretty(nf_for(lm, r).nf(ef))}"[:110], msg_any,
+                                      witness=f"{k}(EXPECTFAIL NAME t)")
+                            continue
+                        info2 = _scan_info(r, lm, ef)
                         if info2 is None or info2.get("unknown"):
                             raise AnalysisError(f"process_{k}: the EXPECTFAIL lookup is not a recognised keyword scan")
                         ok2, msg2 = _check_scan(info2, "EXPECTFAIL", const(True))
@@ -445,6 +459,36 @@ def rule_test_bindings(rep: Report, repo: Repo, r_scan: str, r_filter: str) -> N
                                   witness="add_test(NAME t COMMAND t --flag)  =>  t(COMMAND --flag)", key=f"{r_filter}|add_test-params")
     rep.floor(r_scan, 10, "keyword scans")
     rep.floor(r_filter, 1, "add_test signature")
+
+
+def _any_keyword(t, kw: str):
+    """any(x.upper() == KW for x in XS)  /  KW in [x.upper() for x in XS]: (ok, message) or None if not of this shape.
+    ok iff XS is the whole argument list."""
+    PARAMS = ("map", ("text", IT), A)
+    gen = None
+    if t[0] == "call" and t[1] == ("global", "any") and len(t[2]) == 1:
+        g = t[2][0]
+        if g[0] == "map" and g[1][0] == "cmp" and g[1][1] == "==":
+            lhs, rhs = g[1][2], g[1][3]
+            if rhs == const(kw) and lhs[0] == "call" and lhs[1][0] == "attr" and lhs[1][2] == "upper":
+                inner = lhs[1][1]
+                xs = g[2]
+                if inner == ("text", IT):
+                    xs = ("map", ("text", IT), xs)
+                elif inner != IT:
+                    return None
+                gen = xs
+    if t[0] == "cmp" and t[1] == "in" and t[2] == const(kw) and t[3][0] == "map":
+        m = t[3]
+        if m[1][0] == "call" and m[1][1][0] == "attr" and m[1][1][2] == "upper":
+            inner = m[1][1][1]
+            gen = ("map", ("text", IT), m[2]) if inner == ("text", IT) else (m[2] if inner == IT else None)
+    if gen is None:
+        return None
+    if gen == PARAMS:
+        return True, ""
+    return False, (f"{kw} is searched in `{pretty(gen)[:60]}`, not in all arguments: the keyword is missed when it stands at "
+                   f"a position outside that subset")
 
 
 def _check_scan(info, kw: str, want_val) -> Tuple[bool, str]:
